@@ -19,6 +19,7 @@ Inductive gstmt : Type :=
 | GLoopN (n : Z) (body : list gstmt)                 (* for i := 0; i < n; i++ { body }    (n a literal)      *)
 | GFor (header : string) (body : list gstmt)         (* for init; cond; post { body }      (header as text)   *)
 | GRange (header : string) (body : list gstmt)       (* for k, v := range x { body }       (header as text)   *)
+| GGo (body : list gstmt)                            (* go func() { body }()                                 *)
 | GLabel (name : string)                             (* name:  (the labelled statement follows)              *)
 | GReturn (results : string)                         (* return results                                       *)
 | GBranch (what : string)                            (* break / continue / goto                              *)
